@@ -31,7 +31,9 @@ ASSUMPTIONS = [
 
 HDRS = {"cb/include/h.h": "cb/include", "cb/src/inc/k.h": "cb/src/inc", "cb/build/gen.h": "cb/build", "outbuild/og.h": "outbuild",
         # a per-build-directory generated header: same name, different content, found through `-I.`
-        "cb/build/cfg.h": "cb/build", "outbuild/cfg.h": "outbuild", "cb/include/cfg.h": "cb/include"}
+        "cb/build/cfg.h": "cb/build", "outbuild/cfg.h": "outbuild", "cb/include/cfg.h": "cb/include",
+        # same names directly in the analysis root: must only be found when the root is given with -I
+        "cb/cfg.h": "cb", "cb/h.h": "cb"}
 DIRECTORIES = ["cb", "cb/build", "outbuild", "cb/src"]
 
 
